@@ -49,6 +49,9 @@ namespace foonathan
 
                 void* allocate_node(std::size_t size, std::size_t alignment)
                 {
+                    // the underlying functions only guarantee max_alignment
+                    check_allocation_size<bad_alignment>(alignment, max_alignment, Functor::info());
+
                     auto actual_size = size + (debug_fence_size ? 2 * max_alignment : 0u);
 
                     // actual_size < size: adding the fences wrapped around
